@@ -155,7 +155,23 @@ fn draw_labels(c: &mut Case, categorical: bool, min_per_class: usize) -> Labels 
 
 /// user-supplied priors: positive, normalised (sum to one up to rounding), rounded to T
 fn draw_priors<T: RealNumber>(c: &mut Case, k: usize) -> Vec<f64> {
-    let w: Vec<f64> = (0..k).map(|_| c.rng.logu(0.02, 1.0)).collect();
+    // special prior vectors: exactly uniform, one dominant class, two equal entries — then generic ones
+    let kind = c.rng.below(10);
+    if kind == 0 {
+        c.bucket("priors:exactly-uniform");
+        return fv(&tv::<T>(&vec![1.0 / k as f64; k]));
+    }
+    let w: Vec<f64> = if kind == 1 {
+        c.bucket("priors:one-dominant");
+        let d = c.rng.below(k);
+        (0..k).map(|j| if j == d { 1.0 } else { 1e-6 }).collect()
+    } else if kind == 2 && k >= 3 {
+        c.bucket("priors:two-equal");
+        let v = c.rng.logu(0.02, 1.0);
+        (0..k).map(|j| if j < 2 { v } else { c.rng.logu(0.02, 1.0) }).collect()
+    } else {
+        (0..k).map(|_| c.rng.logu(0.02, 1.0)).collect()
+    };
     let s: f64 = w.iter().sum();
     let p: Vec<f64> = w.iter().map(|x| x / s).collect();
     fv(&tv::<T>(&p))
